@@ -94,9 +94,14 @@ def run_suite(name: str, tier: str, seed: int, treehash: str, use_cache=True):
             dropped[o["drop"]] += 1
             continue
         keep.append(i)
-    terms = [suite.emit(cases[i], obs[i]) for i in keep]
-    ev = core.eval_cases(name, suite.coq_module, terms, extra_header=getattr(suite, "extra_header", ""))
+    if suite.coq_module is None:
+        # oracle-only stream (inputs outside the modelled domain, e.g. non-dyadic floats): no correspondence
+        ev = {"evaluated": 0, "failing": [], "masks": {}, "errors": [], "shards": 0, "coq_s": 0.0}
+    else:
+        terms = [suite.emit(cases[i], obs[i]) for i in keep]
+        ev = core.eval_cases(name, suite.coq_module, terms, extra_header=getattr(suite, "extra_header", ""))
     failing = [keep[j] for j in ev["failing"]]
+    fmask = {keep[j]: m for j, m in ev["masks"].items()}
     distinct = set()
     dist = Counter()
     for i in keep:
@@ -131,14 +136,16 @@ def run_suite(name: str, tier: str, seed: int, treehash: str, use_cache=True):
         "seed": seed,
         "corpus_cases": ncorpus,
         "generated": len(cases) - ncorpus,
-        "evaluations": ev["evaluated"],
+        "evaluations": ev["evaluated"] if suite.coq_module is not None else len(keep),
+        "oracle_only": suite.coq_module is None,
         "distinct_nontrivial": len(distinct),
         "rule": suite.rule,
         "distribution": dict(dist.most_common(40)),
         "dropped": dict(dropped),
         "exhaustive_part": getattr(suite, "exhaustive", False),
-        "failing": [{"idx": i, "case": cases[i], "impl": obs[i]} for i in failing[:10]],
+        "failing": [{"idx": i, "case": cases[i], "impl": obs[i], "mask": fmask.get(i, 1)} for i in failing[:10]],
         "n_failing": len(failing),
+        "failing_masks": [fmask.get(i, 1) for i in failing],
         "coq_errors": ev["errors"],
         "harness_errors": harness_errors[:5],
         "n_harness_errors": len(harness_errors),
@@ -236,10 +243,14 @@ def decide(pid: str, tier: str, seed: int) -> int:
 
                 broken.append(f"correspondence suite `{s}` could not be evaluated: {traceback.format_exc()[-1500:]}")
 
-    # correspondence
+    # correspondence: only the kinds of observable in this property's cone count (DESIGN 5.4)
     corr_broken = []
+    relevant = spec.get("mask", {})
+    nrel = {}
     for s, r in suites.items():
-        if r["n_failing"] or r["coq_errors"] or r["n_harness_errors"]:
+        rel = relevant.get(s, 63)
+        nrel[s] = sum(1 for m in r.get("failing_masks", []) if m & rel)
+        if nrel[s] or r["coq_errors"] or r["n_harness_errors"]:
             corr_broken.append(s)
 
     # oracle hits (unlisted ones are violations with a concrete failing input)
@@ -282,8 +293,9 @@ def decide(pid: str, tier: str, seed: int) -> int:
         first = None
         for s in corr_broken:
             r = suites[s]
-            if r["failing"]:
-                f = r["failing"][0]
+            relf = [f for f in r["failing"] if f.get("mask", 1) & relevant.get(s, 63)]
+            if relf:
+                f = relf[0]
                 suite = load_suite(s)
                 term = suite.emit(f["case"], f["impl"])
                 first = {
@@ -299,7 +311,7 @@ def decide(pid: str, tier: str, seed: int) -> int:
                 "tier": tier,
                 "seed": seed,
                 "kind": "no-failing-input-found",
-                "broken": broken + [f"correspondence suite `{s}`: model and /repo differ on {suites[s]['n_failing']} cases; errors={suites[s]['coq_errors'][:2]} {suites[s]['harness_errors'][:1]}" for s in corr_broken],
+                "broken": broken + [f"correspondence suite `{s}`: model and /repo differ on {nrel[s]} cases in the observables relevant to {pid} (mask {relevant.get(s, 63)}); errors={suites[s]['coq_errors'][:2]} {suites[s]['harness_errors'][:1]}" for s in corr_broken],
                 "theorems": po["theorems"],
                 "disagreement": first,
             }
@@ -330,10 +342,11 @@ def decide(pid: str, tier: str, seed: int) -> int:
             "rule": " | ".join(f"{s}: {r['rule']}" for s, r in suites.items()),
             "samples": samples,
             "programs": evaluations,
-            "disagreements_checked": sum(r["n_failing"] for r in suites.values()),
+            "disagreements_checked": sum(nrel.values()),
+            "disagreements_other_observables": sum(r["n_failing"] for r in suites.values()) - sum(nrel.values()),
             "exhaustive": False,
             "suites": {
-                s: {k: r[k] for k in ("corpus_cases", "generated", "evaluations", "distinct_nontrivial", "distribution", "dropped", "n_failing", "n_oracle_hits", "shards", "impl_s", "coq_s", "wall_s", "cached", "exhaustive_part")}
+                s: {k: r[k] for k in ("corpus_cases", "generated", "evaluations", "oracle_only", "distinct_nontrivial", "distribution", "dropped", "n_failing", "n_oracle_hits", "shards", "impl_s", "coq_s", "wall_s", "cached", "exhaustive_part")}
                 for s, r in suites.items()
             },
             "known_findings_reported": known_lines,
